@@ -185,6 +185,11 @@ func (sw *SessionWindow) Add(data any) {
 		}
 		if sw.watermark != nil {
 			sw.watermark.UpdateEventTime(timestamp)
+			// A far-future (corrupt) timestamp is ignored by the watermark; it must not
+			// extend its key's session either, or that session could never expire.
+			if sw.watermark.IsFarFuture(timestamp) {
+				return
+			}
 			if sw.watermark.IsEventTimeLate(timestamp) {
 				allowedLateness := sw.config.AllowedLateness
 				if allowedLateness > 0 {
